@@ -201,3 +201,10 @@ Example C05_ex_after_budget_lost :
             nth_error (ws msg s) 1 = Some (Sent (MRes (slot_resp 1 true)) (MFail EDeadline)) /\
             outcome (got msg s) = (None, Some EDeadline).
 Proof. eexists. vm_compute. repeat split. Qed.
+(* an attempt answering (incomplete response, error) together is one failure message; a
+   sibling's complete answer still wins, and the oracle rejects (partial, error) then *)
+Example C05_ex_response_with_error :
+  run_scenario 2 [KIncompleteErr; KComplete] [0; 1] None = (Some (slot_resp 1 true), None) /\
+  run_scenario 2 [KCompleteErr; KError] [0; 1] None = (None, Some (EAttempt 1)) /\
+  spec_b (produced [KIncompleteErr; KComplete]) (Some (slot_resp 0 false), Some (EAttempt 0)) = false.
+Proof. vm_compute. repeat split. Qed.
